@@ -62,7 +62,7 @@ def flowObjOf (f : FUid) : M FlowObj := do
   let x ← getInstX f
   return { uid := f, flowId := x.flowId, arguments := x.arguments, parentUid := x.parentUid,
            parentHeadUid := x.parentHeadUid, hierPos := x.hierPos, activated := x.activated,
-           returnValue := lookupArg "_return_value" x.context }
+           returnValue := lookupArg "_return_value" (← getCtx f) }
 
 def outEventArgs (o : FlowObj) (args : List (String × Val)) : List (String × Val) :=
   updateArgs (updateArgs [("source_flow_instance_uid", .str o.uid), ("flow_instance_uid", .str o.uid), ("flow_id", .str o.flowId)] o.arguments) args
@@ -138,8 +138,7 @@ def tempFlowObj (flowName : String) : M FlowObj := do
 
 /-- resolve `$var` of a reference spec: the object and the last member -/
 def resolveRef (f : FUid) (spec : Spec) (v : String) : M (Val × Option Member) := do
-  let x ← getInstX f
-  match lookupArg v x.context with
+  match lookupArg v (← getCtx f) with
   | none => pyRaise "ColangRuntimeError" s!"Unknown variable: '{v}'!"
   | some obj =>
     match spec.members with
